@@ -209,7 +209,7 @@ impl Monitor for C08 {
         "C08"
     }
     fn rule(&self) -> &'static str {
-        "cases = v1 address values: Unknown; IPv4 pairs from boundary x boundary octets and random; IPv6 pairs covering all 256 zero/non-zero group shapes x 3 value modes for the source x 16 shapes for the destination (exhaustive), IPv4-mapped / compatible / all-zero / all-ones, random; ports from 12 boundary values and random, always source != destination; each value is formatted with Display, the line decoded by the independent grammar oracle, parsed back through try_from(&str), try_from(&[u8]), parse::<Header>, parse::<Addresses>, and its source/destination-swapped twin must format differently; second half: every accepted header of the v1 workload must format back (Display, to_owned, clone) to the text it was parsed from; non-trivial = not Unknown / accepted header; distinct = distinct values / inputs"
+        "cases = v1 address values: Unknown; IPv4 pairs from boundary x boundary octets and random; IPv6 pairs covering all 256 zero/non-zero group shapes x 3 value modes for the source x 16 shapes for the destination (exhaustive), IPv4-mapped / compatible / all-zero / all-ones, random; exhaustive single-field sweeps (all 65536 values of each port position of both families, all 256 values of each IPv4 octet position, all 65536 values of each IPv6 group position, the other fields random); ports from 12 boundary values and random, always source != destination; each value is formatted with Display, the line decoded by the independent grammar oracle, parsed back through try_from(&str), try_from(&[u8]), parse::<Header>, parse::<Addresses>, and its source/destination-swapped twin must format differently; second half: every accepted header of the v1 workload must format back (Display, to_owned, clone) to the text it was parsed from; non-trivial = not Unknown / accepted header; distinct = distinct values / inputs"
     }
     fn streams(&self, tier: Tier) -> Vec<StreamSpec> {
         vec![
@@ -217,6 +217,7 @@ impl Monitor for C08 {
             stream("c08-v4", tier.n(50, 1_000_000, 25_000_000)),
             exhaustive("c08-v6-shapes", if tier == Tier::Miri { 64 } else { 256 * 3 * 16 }),
             stream("c08-v6", tier.n(50, 1_000_000, 25_000_000)),
+            if tier == Tier::Miri { stream("c08-sweep-s", 100) } else { exhaustive("c08-sweep", sweep_count()) },
             stream("v1-valid", tier.n(50, 200_000, 20_000_000)),
             stream("v1-mut", tier.n(50, 100_000, 10_000_000)),
             stream("v1-eol", tier.n(20, 50_000, 5_000_000)),
@@ -251,9 +252,19 @@ impl Monitor for C08 {
                 let (sp, dp) = rand_port_pair(rng);
                 judge_value(&A1::Tcp6 { src: bytes_of(a), dst: bytes_of(b), sp, dp }, rec);
             }
+            "c08-sweep" | "c08-sweep-s" => {
+                // every port value in each position, every octet value in each position, every
+                // group value in each position (exhaustive), the other fields random
+                let i = if stream == "c08-sweep" { idx } else { rng.below(sweep_count()) };
+                let v = match sweep_values(i, rng) {
+                    Val1::Tcp4 { src, dst, sp, dp } => A1::Tcp4 { src, dst, sp, dp },
+                    Val1::Tcp6 { src, dst, sp, dp } => A1::Tcp6 { src, dst, sp, dp },
+                };
+                judge_value(&v, rec);
+            }
             _ => {
                 let x = v1_case(stream, idx, seed);
-                judge_parsed(&x, rec);
+                spec::sib::run_v1(&x, idx, 4, |x| judge_parsed(x, rec));
             }
         }
     }
